@@ -396,7 +396,7 @@ def inline_type_name(outer, field_name):
 def tlc_prog(prog):
     """The part of the program TLC reads (render hints are harmless extras)."""
     j = prog.to_json() if isinstance(prog, Program) else prog
-    return {"types": _strip(j["types"])}
+    return {"types": _strip(j["types"]), "enums": _strip(j["enums"]) or {"NoEnum": {"values": []}}}
 
 
 def _strip(x):
